@@ -175,7 +175,7 @@ Fun1dLen(f, n) ==
     [] f = "rev"     -> n
     [] f = "sub2"    -> (n + 1) \div 2
     [] f = "cumsum"  -> n
-    [] f = "conv11v" -> IF n >= 2 THEN n - 1 ELSE 2 - n  \* numpy valid: max(n,k)-min(n,k)+1
+    [] f = "conv11v" -> IF n >= 2 THEN n - 1 ELSE 2      \* numpy valid: max(n,k)-min(n,k)+1
     [] f = "conv11f" -> n + 1
     [] f = "conv121s" -> MaxI(n, 3)
     [] f = "first"   -> 1
